@@ -79,9 +79,9 @@ def gen(tier, rnd):
     C = catalogue()
     cid = [0]
 
-    def case(stream_lines, chunks, mx=0):
+    def case(stream_lines, chunks, mx=0, edge=0):
         cid[0] += 1
-        cases.append((cid[0], ['X id=%d max=%d' % (cid[0], mx)] + stream_lines + ['C ' + ' '.join(str(c) for c in chunks), 'E']))
+        cases.append((cid[0], ['X id=%d max=%d edge=%d' % (cid[0], mx, edge)] + stream_lines + ['C ' + ' '.join(str(c) for c in chunks), 'E']))
 
     def lit(parts):
         return ['S ' + b''.join(parts).hex()]
@@ -113,6 +113,10 @@ def gen(tier, rnd):
         n = len(CSM) + len(m_hdr) + len(C['ping'])
         case(sl, [])
         case(sl, [1] * 12 + [1472, 1472, 1, 1471, 1473])
+        # the same arrivals signalled once each (a TLS layer underneath): the reader has to drain what one wake-up brought
+        case(sl, [], edge=1)
+        case(sl, [1] * 12 + [1472, 1472, 1, 1471, 1473], edge=1)
+        case(sl, [len(CSM) + 2, 1472 * 2, 1472 * 3 + 5], edge=1)
         for _ in range(6 if tier == 'quick' else 60):
             k = rnd.randint(1, 8)
             cs = sorted(rnd.sample(range(1, n), k))
@@ -149,7 +153,13 @@ def gen(tier, rnd):
         ch = cuts_to_chunks(n, cs)
         if rnd.random() < 0.2:
             ch = [x for c in ch for x in (c, 0)]
-        case(lit(parts), ch)
+        case(lit(parts), ch, edge=1 if rnd.random() < 0.25 else 0)
+    # many messages arriving in one wake-up that is larger than the read buffer (1472), signalled once
+    for k in range(6 if tier == 'quick' else 60):
+        parts = [CSM] + [C[rnd.choice(names)] for _k in range(rnd.randint(120, 400))]
+        n = sum(len(p) for p in parts)
+        cs = sorted(rnd.sample(range(1, n), rnd.randint(0, 3)))
+        case(lit(parts), cuts_to_chunks(n, cs), edge=1)
     return cases
 
 
